@@ -464,3 +464,211 @@ func TestC12_Generator(t *testing.T) {
 		}
 	})
 }
+
+// ---- "any future refresh": the library rebuilt on refreshed tables
+
+// RefreshCase: how the SPDX JSON is changed before the tables are regenerated.
+type RefreshCase struct {
+	Mode   string   `json:"mode"`   // reverse | shuffle | append | mixed
+	Append []string `json:"append"` // new license ids appended (active)
+	Seed   int      `json:"seed"`   // shuffle seed (deterministic LCG)
+}
+
+func init() { registerReplay("c12-refresh", checkC12Refresh) }
+
+const refreshProbe = `package main
+
+import (
+	"encoding/json"
+	"fmt"
+	"os"
+
+	"github.com/github/go-spdx/v2/spdxexp"
+	"github.com/github/go-spdx/v2/spdxexp/spdxlicenses"
+)
+
+func ids(path, arr, key string) (act, dep []string) {
+	data, _ := os.ReadFile(path)
+	var doc map[string]json.RawMessage
+	json.Unmarshal(data, &doc)
+	var es []map[string]any
+	json.Unmarshal(doc[arr], &es)
+	for _, e := range es {
+		id, _ := e[key].(string)
+		if d, _ := e["isDeprecatedLicenseId"].(bool); d {
+			dep = append(dep, id)
+		} else {
+			act = append(act, id)
+		}
+	}
+	return
+}
+
+func same(a, b []string) bool {
+	if len(a) != len(b) {
+		return false
+	}
+	for i := range a {
+		if a[i] != b[i] {
+			return false
+		}
+	}
+	return true
+}
+
+func main() {
+	act, dep := ids("cmd/licenses.json", "licenses", "licenseId")
+	exc, _ := ids("cmd/exceptions.json", "exceptions", "licenseExceptionId")
+	bad := 0
+	report := func(f string, a ...any) { bad++; if bad <= 5 { fmt.Printf("PROBE-FAIL "+f+"\n", a...) } }
+	if !same(act, spdxlicenses.GetLicenses()) || !same(dep, spdxlicenses.GetDeprecated()) || !same(exc, spdxlicenses.GetExceptions()) {
+		report("regenerated tables differ from the refreshed JSON")
+	}
+	for _, id := range append(append([]string{}, act...), dep...) {
+		if ok, _ := spdxexp.ValidateLicenses([]string{id}); !ok {
+			report("listed license id %q is rejected", id)
+		}
+		if ok, err := spdxexp.Satisfies(id, []string{id}); !ok || err != nil {
+			report("Satisfies(%q, {%q}) = %v, %v", id, id, ok, err)
+		}
+	}
+	for _, id := range exc {
+		if ok, _ := spdxexp.ValidateLicenses([]string{"MIT WITH " + id}); !ok {
+			report("listed exception id %q is rejected after WITH", id)
+		}
+		if ok, _ := spdxexp.ValidateLicenses([]string{id}); ok {
+			report("exception id %q is accepted as a license", id)
+		}
+	}
+	if ok, err := spdxexp.Satisfies("GPL-3.0-only OR MIT", []string{"GPL-2.0+"}); !ok || err != nil {
+		report("Satisfies(GPL-3.0-only OR MIT, {GPL-2.0+}) = %v, %v", ok, err)
+	}
+	fmt.Printf("PROBE-DONE failures=%d licenses=%d exceptions=%d\n", bad, len(act)+len(dep), len(exc))
+}
+`
+
+func copyTree(src, dst string, rel ...string) error {
+	for _, r := range rel {
+		err := filepath.Walk(filepath.Join(src, r), func(p string, info os.FileInfo, err error) error {
+			if err != nil {
+				return err
+			}
+			out := filepath.Join(dst, strings.TrimPrefix(p, src))
+			if info.IsDir() {
+				return os.MkdirAll(out, 0o755)
+			}
+			if strings.HasSuffix(p, "_test.go") {
+				return nil
+			}
+			data, err := os.ReadFile(p)
+			if err != nil {
+				return err
+			}
+			return os.WriteFile(out, data, 0o644)
+		})
+		if err != nil {
+			return err
+		}
+	}
+	return nil
+}
+
+// reorder rewrites the array of an SPDX JSON document (generic maps keep every field).
+func refreshJSON(path, arr, idKey string, c RefreshCase, appendIDs []string) error {
+	data, err := os.ReadFile(path)
+	if err != nil {
+		return err
+	}
+	var doc map[string]json.RawMessage
+	if err := json.Unmarshal(data, &doc); err != nil {
+		return err
+	}
+	var es []map[string]any
+	if err := json.Unmarshal(doc[arr], &es); err != nil {
+		return err
+	}
+	switch c.Mode {
+	case "reverse", "mixed":
+		for i, j := 0, len(es)-1; i < j; i, j = i+1, j-1 {
+			es[i], es[j] = es[j], es[i]
+		}
+	case "shuffle":
+		x := uint64(c.Seed)*2862933555777941757 + 3037000493
+		for i := len(es) - 1; i > 0; i-- {
+			x = x*2862933555777941757 + 3037000493
+			j := int((x >> 33) % uint64(i+1))
+			es[i], es[j] = es[j], es[i]
+		}
+	}
+	for _, id := range appendIDs {
+		es = append(es, map[string]any{idKey: id, "isDeprecatedLicenseId": false, "name": "refreshed entry " + id, "reference": "https://example.invalid/" + id})
+	}
+	raw, _ := json.Marshal(es)
+	doc[arr] = raw
+	out, _ := json.MarshalIndent(doc, "", "  ")
+	return os.WriteFile(path, out, 0o644)
+}
+
+// checkC12Refresh: refresh the SPDX JSON in a scratch copy of the repository (reorder the entries,
+// append new ids), regenerate the tables with the repository's own generator, rebuild the library
+// on them and check that every listed id still works.
+func checkC12Refresh(c RefreshCase) Outcome {
+	key := fmt.Sprintf("C12/refresh/%s/%d/%s", c.Mode, c.Seed, strings.Join(c.Append, ","))
+	dir, err := os.MkdirTemp("", "verif-refresh-")
+	if err != nil {
+		return fail("C12/harness", "%v", err)
+	}
+	defer os.RemoveAll(dir)
+	if err := copyTree(repoDir(), dir, "cmd", "spdxexp"); err != nil {
+		return fail("C12/harness", "copy: %v", err)
+	}
+	for _, f := range []string{"go.mod", "go.sum"} {
+		data, _ := os.ReadFile(filepath.Join(repoDir(), f))
+		os.WriteFile(filepath.Join(dir, f), data, 0o644)
+	}
+	if err := refreshJSON(filepath.Join(dir, "cmd", "licenses.json"), "licenses", "licenseId", c, c.Append); err != nil {
+		return fail("C12/harness", "refresh licenses.json: %v", err)
+	}
+	var excAppend []string
+	if len(c.Append) > 0 {
+		excAppend = []string{"Aaa-refreshed-exception", "zzz-refreshed-exception-9.9"}
+	}
+	if err := refreshJSON(filepath.Join(dir, "cmd", "exceptions.json"), "exceptions", "licenseExceptionId", c, excAppend); err != nil {
+		return fail("C12/harness", "refresh exceptions.json: %v", err)
+	}
+	env := append(os.Environ(), "GOFLAGS=-mod=mod", "GOPROXY=off", "GOSUMDB=off", "GOTOOLCHAIN=local")
+	gen := exec.Command("go", "run", ".", "extract", "-l", "-e")
+	gen.Dir = filepath.Join(dir, "cmd")
+	gen.Env = env
+	if out, err := gen.CombinedOutput(); err != nil {
+		return fail(key, "the generator fails on the refreshed data: %v\n%s", err, firstN(string(out), 1500))
+	}
+	os.MkdirAll(filepath.Join(dir, "zzprobe"), 0o755)
+	os.WriteFile(filepath.Join(dir, "zzprobe", "main.go"), []byte(refreshProbe), 0o644)
+	probe := exec.Command("go", "run", "./zzprobe")
+	probe.Dir = dir
+	probe.Env = env
+	out, err := probe.CombinedOutput()
+	s := string(out)
+	if err != nil || !strings.Contains(s, "PROBE-DONE failures=0 ") {
+		return fail(key, "after refreshing cmd/*.json (%s; appended %q) and regenerating the tables, the rebuilt library misbehaves:\n%s", c.Mode, c.Append, firstN(s, 2000))
+	}
+	return pass()
+}
+
+func TestC12_Refresh(t *testing.T) {
+	cfg := Cfg()
+	rec := NewRecorder("C12", "refresh", "the repository (cmd/ + spdxexp/) is copied to a scratch directory, cmd/licenses.json and cmd/exceptions.json are refreshed (entries reversed / shuffled with a seeded LCG / new benign ids appended at the end), the tables are regenerated with the repository's own generator and the library is rebuilt on them; oracle: tables equal the refreshed JSON, every listed license id validates and satisfies itself, every exception id is accepted after WITH and rejected as a license; non-trivial = every refresh; distinct by refresh")
+	defer rec.Finish(t)
+	cases := []RefreshCase{{Mode: "reverse"}, {Mode: "append", Append: []string{"BSD-Seed-Refresh", "aaa-first-1.0", "Zzz-Last-2.0", "0-digit-first"}}, {Mode: "shuffle", Seed: int(cfg.Seed)}}
+	for i := 0; i < cfg.Pick(0, 9); i++ {
+		cases = append(cases, RefreshCase{Mode: "shuffle", Seed: int(cfg.Seed) + 1 + i}, RefreshCase{Mode: "mixed", Append: []string{fmt.Sprintf("Refresh-%d.0", i), "m-middle"}})
+	}
+	parallelFor(len(cases), func(i int) {
+		out := checkC12Refresh(cases[i])
+		rec.Case(true, fmt.Sprintf("%+v", cases[i]), cases[i], "mode-"+cases[i].Mode)
+		if !out.OK {
+			rec.Violate("c12-refresh", out.Key, out.Msg, cases[i])
+		}
+	})
+}
